@@ -79,8 +79,8 @@ var HelperModels = []helperModel{
 
 // helpersNotModelled lists the channel functions of helper/ outside C16's statement, with the reason.
 var helpersNotModelled = map[string]string{
-	"Seq":                       "trip count (to-from)/increment is not linear; a generator, not a stream transformer",
-	"Field":                     "reflection-based field extraction with an error result; values only",
+	"Seq":                       "trip count (to-from)/increment is not linear, so no count model; its values and loop bound are decided by seqValues (SSA)",
+	"Field":                     "reflection-based field extraction with an error result; no count model, its values are decided by fieldValues (SSA)",
 	"CheckEquals":               "test utility returning an error",
 	"ChanToJSON":                "codec (C11)",
 	"JSONToChan":                "codec (C11/C19)",
@@ -134,7 +134,7 @@ func proveEQWhereNonEmpty(g *lin.Ctx, nonEmpty, a, b *lin.Expr) bool {
 func CheckC16(c *Ctx) {
 	run := c.Run
 	run.Technique = "token-count abstract interpretation of every stage body in helper/ (lengths, consumption, anchors, capacities as symbolic expressions), compared with a frozen slice-model table by exact linear entailment"
-	run.Explanation = "For every stream helper the number of elements on each output, the number of elements taken from each input, whether each input is consumed to the end, the anchor of the first output element, the fill prefix, the output capacity and close-on-all-paths are derived from the helper's current source for symbolic input lengths and parameters, and proved equal to the slice model for ALL lengths and parameters in the helper's domain. Values: for the 27 arithmetic and copying helpers (Abs … Divide, Change/ChangeRatio/ChangePercent, Skip/Head/First/Buffered/Waitable/Shift/SyncPeriod/Duplicate, Since) the term every output element carries is derived (closures inlined, delays from the anchors) and compared with the model term as a rational function; the values of Map/Apply/Operate/Filter/MapWithPrevious are those of the caller's function, Last/Echo/Count/SliceToChan values are not decided. Count's counter is decided on the SSA form of its stage: the value sent is a loop-carried counter that starts at `from` itself and is advanced by adding 1."
+	run.Explanation = "For every stream helper the number of elements on each output, the number of elements taken from each input, whether each input is consumed to the end, the anchor of the first output element, the fill prefix, the output capacity and close-on-all-paths are derived from the helper's current source for symbolic input lengths and parameters, and proved equal to the slice model for ALL lengths and parameters in the helper's domain. Values: for the 27 arithmetic and copying helpers (Abs … Divide, Change/ChangeRatio/ChangePercent, Skip/Head/First/Buffered/Waitable/Shift/SyncPeriod/Duplicate, Since) the term every output element carries is derived (closures inlined, delays from the anchors) and compared with the model term as a rational function; the values of Map/Apply/Operate/Filter/MapWithPrevious are those of the caller's function, Last/Echo/Count/SliceToChan values are not decided. Count's counter is decided on the SSA form of its stage: the value sent is a loop-carried counter that starts at `from` itself and is advanced by adding 1. Seq and Field (no count model) are decided on the SSA form of their goroutine: Seq sends the loop-carried counter started at `from`, advanced by `increment`, while counter < `to` (the parameters themselves); Field sends Interface() of the field selected by the complete Index path of the StructField looked up by name, or by FieldByName(name)."
 	run.Trusted = []string{"go/types", "helper.Ring fullness model (occupancy = min(puts,size) - gets)", "slice-model table HelperModels (DESIGN appendix B)", "Fourier–Motzkin entailment (internal/lin)"}
 	// every channel function of helper/ must be modelled or explicitly exempt
 	models := map[string]helperModel{}
@@ -440,6 +440,8 @@ func (c *Ctx) helperValues() {
 	run.Floor("helper_values", 27)
 	c.checkStepSpecs([]stepSpec{sinceSpec})
 	c.countValues()
+	c.seqValues()
+	c.fieldValues()
 	c.chanToSliceStartsEmpty()
 }
 
